@@ -21,8 +21,9 @@ import warnings
 VERIF = os.path.dirname(os.path.dirname(os.path.abspath(__file__)))
 SPEC = os.path.join(VERIF, "spec")
 REPO = os.environ.get("VERIF_REPO", "/repo")
-EVIDENCE = os.path.join(VERIF, "evidence")
-REPLAYS = os.path.join(VERIF, "replays")
+# trial runs against a seeded change (tools/try_mutant.sh) redirect these two so that committed evidence is never overwritten
+EVIDENCE = os.environ.get("VERIF_EVIDENCE_DIR", os.path.join(VERIF, "evidence"))
+REPLAYS = os.environ.get("VERIF_REPLAYS_DIR", os.path.join(VERIF, "replays"))
 KNOWN = os.path.join(VERIF, "known_findings.json")
 JAR = "/opt/veriftools/tla/tla2tools.jar"
 CM = "/opt/veriftools/tla/CommunityModules-deps.jar"
